@@ -15,14 +15,11 @@ type arrayDecoder struct {
 	alen         int
 	structName   string
 	fieldName    string
-	zeroValue    unsafe.Pointer
 	zeroValuePtr unsafe.Pointer
 }
 
 func newArrayDecoder(dec Decoder, elemType *runtime.Type, alen int, structName, fieldName string) *arrayDecoder {
-	// workaround to avoid checkptr errors. cannot use `*(*unsafe.Pointer)(unsafe_New(elemType))` directly.
 	zeroValuePtr := unsafe_New(elemType)
-	zeroValue := **(**unsafe.Pointer)(unsafe.Pointer(&zeroValuePtr))
 	return &arrayDecoder{
 		valueDecoder: dec,
 		elemType:     elemType,
@@ -30,7 +27,6 @@ func newArrayDecoder(dec Decoder, elemType *runtime.Type, alen int, structName, 
 		alen:         alen,
 		structName:   structName,
 		fieldName:    fieldName,
-		zeroValue:    zeroValue,
 		zeroValuePtr: zeroValuePtr,
 	}
 }
